@@ -237,7 +237,8 @@ for _k, _f, _ty, _fields in (('eip2930', E29, '0x01', 'chainId, nonce, gasPrice,
                              ('eip1559', E15, '0x02', 'chainId, nonce, maxPriorityFeePerGas, maxFeePerGas, gas, to | empty string, value, data, accessList')):
     for _n, _d in (('signed_to', 'signed, recipient present'), ('signed_create', 'signed, no recipient'),
                    ('unsigned_to', 'unsigned, recipient present'), ('unsigned_create', 'unsigned, no recipient')):
-        K(f'c06_{_k}_{_n}', _f, f'{_k.capitalize()}Transaction::rlp_encode', {'C06': Q, 'C11': Q},
+        _t = T if _n == 'signed_create' else Q
+        K(f'c06_{_k}_{_n}', _f, f'{_k.capitalize()}Transaction::rlp_encode', {'C06': _t, 'C11': Q if _n == 'unsigned_to' else T},
           f'{_k} encoding is the type byte {_ty} followed by exactly one RLP list of [{_fields}] and, when signed, (yParity, r, s) - nothing else, in this order, every field value symbolic, chainId the first signed field (element encoders, AccessList::rlp_encode and rlp::iter as recording callee contracts, proved / paired in C07)',
           complete=True, bound=f'shape: {_d}; 2 bytes of calldata; all numeric values, recipient, calldata bytes, parity symbolic; the access list is an opaque callee (identity recorded)', replay='none', timeout=1200)
 K('c11_chain_id_invariant', LEG, 'legacy::deserialize_chain_id', {'C11': Q, 'C06': Q, 'C17': Q},
@@ -341,10 +342,11 @@ PROPS = {
                 technique='Kani/CBMC contracts on the real LegacyTransaction / Eip2930Transaction / Eip1559Transaction::rlp_encode with the element encoders (and, for the typed kinds, AccessList::rlp_encode and rlp::iter) as recording callee contracts (proved in the C07 Verus unit, which runs again here); native reference-encoder stand-in for kind dispatch, access lists and the JSON layer',
                 claim='Proved for legacy transactions in all four shapes (signed/unsigned x chain id present/absent), every numeric value, recipient, calldata byte and parity symbolic: the output is one RLP list of exactly [nonce, gasPrice, gas, to | empty, value, data] plus the tail (35 + 2c + p | 27 + p, r, s), (c, 0, 0) or nothing; rlp::{len,bytes,uint,list} are proved equal to the Yellow-Paper encoding for all inputs (Verus). Proved for EIP-2930 and EIP-1559 in all four shapes each (signed/unsigned x recipient present/absent), every value symbolic: the output is the type byte 0x01 / 0x02 followed by exactly one list whose items are, in order, [chainId, nonce, gasPrice | maxPriorityFeePerGas, maxFeePerGas, gas, to | empty, value, data, accessList] plus (yParity, r, s) when signed. Kind dispatch (Transaction enum), the contents of non-empty access lists and the JSON-to-field mapping are covered only by the bounded native differential against a reference encoder with a strict decoder (1836 signed encodings).',
                 note='Eip2930/Eip1559 rlp_encode exhaust CBMC memory when rlp::iter runs for real (collect + list over 9-12 token vectors); with rlp::iter as a recording callee contract (its own contract, iter(xs) == list(xs), is the Verus obligation on list plus the c07_iter pairing) they discharge in 1.5-5 min per shape. Transaction::{signing_message, encode} dispatch cannot be compiled by Kani 0.68 (internal error on the niche-encoded Transaction enum discriminant). "Recovers to the signer" needs C05 (not applicable). Keccak-256 assumed.',
-                jobs=8),
+                jobs=10),
     'C11': dict(level='proof',
                 technique='Kani/CBMC contracts: Signature::v over all representable chain ids on the real ethnum arithmetic, the deserialization invariant that establishes its precondition, and the legacy EIP-155 tails',
                 claim='Proved: v(Some(c)) == 35 + 2c + yParity exactly over the naturals for every c <= 2^255 - 19 (every c for which the value fits 256 bits), v(None) == 27 + yParity; every legacy chain id accepted from JSON satisfies that bound (larger ones are refused with an error), so no wrap-around is reachable; the unsigned legacy payload ends in (c, 0, 0) iff a chain id is present and the signed one carries that v. The refusal to sign an unprotected legacy transaction without the override flag is checked only by the bounded native CLI stand-in (Kani 0.68 cannot compile a match on the Transaction enum).',
+                jobs=10,
                 note='Typed transactions carry the chain id as first signed field: proved by the c06_eip2930_* / c06_eip1559_* contracts (see C06). "A signature for one chain id never validates under another" additionally needs collision resistance of Keccak and C05; assumed.'),
     'C13': dict(level='proof',
                 technique='Kani/CBMC contracts on the real ethnum permissive visitor as instantiated by this crate, over every u64 / i64 / f64 JSON number; native stand-in for strings and for the repository\'s negative-number guard',
